@@ -66,10 +66,15 @@ func (c cacheMsgs) commit(ctx sdk.Context, k common.KeeperOracle) {
 	}
 	index, _ := k.GetIndexRecentMsg(ctx)
 
+	// block - MaxNonce must not wrap around for the first blocks
+	threshold := uint64(0)
+	if block > uint64(common.MaxNonce) {
+		threshold = block - uint64(common.MaxNonce)
+	}
 	i := 0
 	for ; i < len(index.Index); i++ {
 		b := index.Index[i]
-		if b > block-uint64(common.MaxNonce) {
+		if b > threshold {
 			break
 		}
 		k.RemoveRecentMsg(ctx, b)
@@ -115,10 +120,14 @@ func (c *cacheParams) add(p ItemP) {
 func (c *cacheParams) commit(ctx sdk.Context, k common.KeeperOracle) {
 	block := uint64(ctx.BlockHeight())
 	index, _ := k.GetIndexRecentParams(ctx)
+	threshold := uint64(0)
+	if block > uint64(common.MaxNonce) {
+		threshold = block - uint64(common.MaxNonce)
+	}
 	i := 0
 	for ; i < len(index.Index); i++ {
 		b := index.Index[i]
-		if b >= block-uint64(common.MaxNonce) {
+		if b >= threshold {
 			break
 		}
 		k.RemoveRecentParams(ctx, b)
